@@ -142,3 +142,16 @@ func (fr *Frame) Headers() []int {
 
 // CurrentGuard returns the absolute path condition at the instruction being evaluated.
 func (fr *Frame) CurrentGuard() *Term { return fr.absGuard(fr.curBlock) }
+
+// EdgeGuard returns the condition under which control flows along the edge from block p to block b
+// (relative to the function entry within one iteration: reach of p and the branch condition), or nil.
+func (fr *Frame) EdgeGuard(p, b int) *Term {
+	r := fr.reach[p]
+	if r == nil {
+		return nil
+	}
+	if c := fr.edgeCond[[2]int{p, b}]; c != nil {
+		return And(r, c)
+	}
+	return r
+}
